@@ -168,8 +168,10 @@ def bases(rnd, quick):
         pins7 = sorted(p for p in table7 if table7[p])
         split = [p for p in pins7 if any(sum(len(c) > 1 for c in comp) >= 2 for comp in (p.sum_decomposition(), p.skew_decomposition()))]
         simple7 = [p for p in pins7 if p.is_simple()]
-        for pool in (split, simple7):
-            for p in rnd.sample(pool, min(4, len(pool))):
+        # two components of three or more points each: few such pin permutations exist, most of them are taken
+        big2 = [p for p in pins7 if any(sum(len(c) >= 3 for c in comp) >= 2 for comp in (p.sum_decomposition(), p.skew_decomposition()))]
+        for pool, take in ((split, 4), (simple7, 4), (big2, 16)):
+            for p in rnd.sample(pool, min(take, len(pool))):
                 out.append([tuple(p)])
                 out.append([tuple(p), rnd.choice(util.perms_of(3))])
     # repeated elements; an element contained in another one (listed before and after it); degenerate bases
